@@ -1488,6 +1488,12 @@ def sysabs(hkl, syscond, crystal_system='triclinic', cell_choice='standard'):
                 k = hkl[0]
                 l = hkl[1]
                 sys_type = sysabs_unique([h, k, l], syscond)    
+    elif crystal_system == 'cubic':
+        # the zonal conditions also hold for the cyclic permutations of hkl
+        if sys_type == 0:
+            sys_type = sysabs_unique([hkl[1], hkl[2], hkl[0]], syscond)
+            if sys_type == 0:
+                sys_type = sysabs_unique([hkl[2], hkl[0], hkl[1]], syscond)
     elif crystal_system == 'trigonal' or crystal_system == 'hexagonal':
         if sys_type == 0:
             h = -(hkl[0]+hkl[1])
